@@ -45,15 +45,18 @@ func c04Cases(cfg memtpt.Config, dry *c04Result, variants []c04Variant, extraSce
 				}
 				add(c04Fault{Kind: "cancel", Side: side, K: k})
 				add(c04Fault{Kind: "lnclose", Side: side, K: k})
+				add(c04Fault{Kind: "connclose", Side: side, K: k})
 			}
 			for _, hook := range memnet.GaterHooks {
 				for n := 0; n < dry.GaCalls[si][hook]; n++ {
 					add(c04Fault{Kind: "gater", Side: side, K: n, What: hook})
+					add(c04Fault{Kind: "cancelcall", Side: side, K: n, What: hook})
 				}
 			}
 			for _, call := range memnet.RcmgrCalls {
 				for n := 0; n < dry.RcCalls[si][call]; n++ {
 					add(c04Fault{Kind: "rcmgr", Side: side, K: n, What: call})
+					add(c04Fault{Kind: "cancelcall", Side: side, K: n, What: call})
 				}
 			}
 		}
@@ -80,7 +83,8 @@ func TestVerifC04Upgrade(t *testing.T) {
 		return
 	}
 
-	variants := []c04Variant{{}}
+	// quick: each variant on its own; thorough: their cross product
+	variants := []c04Variant{{}, {LateAccept: true}, {InClosesFirst: true}, {ShortDial: true}}
 	if vrep.Thorough() {
 		variants = nil
 		for _, a := range []bool{false, true} {
@@ -170,6 +174,7 @@ func TestVerifC04Upgrade(t *testing.T) {
 				}
 			}
 			for _, v := range res.Vios {
+				fmt.Printf("C04-VIO %s  %s  out=%s in=%s post=%s\n", v.Key, cs, res.OutStage, res.InStage, res.Post)
 				r.Violate(v.Key, fmt.Sprintf("%s: %s", cs, v.Desc), res)
 			}
 			if len(res.Vios) == 0 && res.Fired && len(r.Samples) < 6 && idx%97 == shard {
